@@ -176,7 +176,7 @@ def _c03_oracle(tr, origin, meta):
 def run_c03(ctx):
     n = _tier(ctx, 20, 240)
     jobs, metas = _jobs_from(scen.join, 'C03', ctx['seed'], n)
-    jobs = pc.corpus_jobs(['S18_*.scn', 'S11_*.scn', 'R1_*.scn']) + jobs
+    jobs = pc.corpus_jobs(['S18_*.scn', 'S11_*.scn', 'R1_*.scn', 'S12_*.scn', 'S25_*.scn', 'S26_*.scn']) + jobs
     out = pc.run_scenarios('C03', ctx, jobs, [_with_meta(metas, _c03_oracle)], nontrivial=pc.received_kinds)
     out['opstats']['entity_model_replays'] = _absent(out)
     return pc.make_result('C03', ctx, out, 'frames of histories in which the last client joins at a random moment (idle or while the others keep writing), 8 switch combinations; non-trivial = distinct (scenario, receiver, kind, key) received',
@@ -282,7 +282,7 @@ def _c06_meta(text):
 def run_c06(ctx):
     n = _tier(ctx, 16, 200)
     jj, _ = _jobs_from(scen.join, 'C06j', ctx['seed'], max(6, n // 2))
-    jobs = pc.generated_jobs('C06', ctx['seed'], n, ['assets']) + jj
+    jobs = pc.corpus_jobs(['S7_*.scn', 'S12_*.scn', 'S26_*.scn']) + pc.generated_jobs('C06', ctx['seed'], n, ['assets']) + jj
     metas = {name: _c06_meta(text) for name, text in jobs}
 
     def orc(tr, origin):
